@@ -174,7 +174,9 @@ def gen_abbrevs(rng, cfg, n=7):
                 continue
             used.add(a)
             f = r.choice(forms)
-            attrs.append((a, f, r.choice([0, -1, 5, 2 ** 40, -2 ** 33]) if f == 'DW_FORM_implicit_const' else None))
+            if cfg.version >= 5 and r.random() < 0.15:
+                f = 'DW_FORM_implicit_const'         # over-represented: the constant lives in the declaration (0 is a value like any other)
+            attrs.append((a, f, r.choice([0, 0, -1, 5, 2 ** 40, -2 ** 33]) if f == 'DW_FORM_implicit_const' else None))
         kids = (i % 2 == 0)
         if kids and r.random() < 0.6:
             attrs.insert(r.randrange(len(attrs) + 1), ('DW_AT_sibling', r.choice(SIBLING_FORMS), None))
